@@ -74,11 +74,9 @@ def mix_energy(ctx, d1, d2):
     prog = ctx.prog
     f = prog.method('Stream', 'mix_from', rel=ST)
 
-    def decide(t, st):
-        s = src(t)
-        if s == 'energy_balance':
-            return True
-        return None
+    # scenario: the energy balance is requested (however the flag is tested)
+    from ..pathcond import scenario_decide
+    decide = scenario_decide(lambda t: True if (isinstance(t, ast.Name) and t.id == 'energy_balance') else None)
     ps, trunc = run_paths(f.node, decide=decide, call_hook=sum_hook, max_paths=3000)
     if trunc:
         raise AnalysisError('Stream.mix_from: path enumeration truncated')
@@ -296,7 +294,8 @@ def separate(ctx, d4):
     prog = ctx.prog
     f = prog.method('Stream', 'separate_out', rel=ST)
     o = f.params[1]
-    ps, _ = run_paths(f.node, decide=lambda t, s: True if src(t) == 'energy_balance' else None)
+    from ..pathcond import scenario_decide as _sd
+    ps, _ = run_paths(f.node, decide=_sd(lambda t: True if (isinstance(t, ast.Name) and t.id == 'energy_balance') else None))
     n = 0
     bad = None
     for p in ps:
@@ -316,7 +315,7 @@ def separate(ctx, d4):
         d4.fail('Stream.separate_out', 'order', bad, f, f.node)
     else:
         d4.ok('Stream.separate_out', 'H_new = self.H - other.H read before _imol.separate_out, assigned after (%d paths)' % n, f)
-    ps, _ = run_paths(f.node, decide=lambda t, s: False if src(t) == 'energy_balance' else None)
+    ps, _ = run_paths(f.node, decide=_sd(lambda t: False if (isinstance(t, ast.Name) and t.id == 'energy_balance') else None))
     if all(not [e for e in p.events if e.kind == 'store' and e.target == 'self.H'] for p in ps):
         d4.ok('Stream.separate_out', 'no enthalpy assignment when the energy balance is off', f)
     else:
